@@ -181,4 +181,9 @@ M = [('r3_revert_D3_eventmonitor_port',
     '            m.submodules["__".join(reg_name)] = reg\n'
     '\n'
     '        connect(m, flipped(self.bus), self._mux.bus)\n')],
-  None)]
+  None),
+ # ce9095a fix: declare event.Monitor.pending as an output
+ ("r7_revert_D8_monitor_pending", "amaranth_soc/event.py",
+  "            \"pending\": Out(event_map.size),",
+  "            \"pending\": In(event_map.size),"),
+]
